@@ -126,3 +126,21 @@ def fixed2():
 
 if __name__ == '__main__':
     fixed2()
+
+
+def batch3():
+    pin('C01', 'ber-multibyte-tag-false-eod',
+        mod([('A', seq(M('v', Ty('SET', root=[M('a', Ty('BOOLEAN'))], tag=Tag('CONTEXT', 129)), optional=True),
+                       M('i', Ty('SEQUENCE', root=[], tag=Tag('CONTEXT', 30)))))], tagdefault='IMPLICIT'),
+        'A', {'i': {}}, codec='ber')
+    pin('C01', 'named-bits-default-size',
+        mod([('A', seq(M('a', Ty('BIT STRING', named_bits=[('b2', 14), ('b1', 10), ('q', 18)], size=Rng(20, 20)),
+                         has_default=True, default=(b'\x00"\x00', 20), default_txt='{ b2, b1 }')))]),
+        'A', {'a': (b'\x00"\x00', 20)}, codec='ber')
+    pin('C01', 'per-from-overlap',
+        mod([('A', Ty('VisibleString', alpha=Alpha([(' ', ' '), ('8', '>'), (':', ':')])))]),
+        'A', '9=: : >', codec='uper')
+
+
+if __name__ == '__main__':
+    batch3()
